@@ -70,7 +70,7 @@ def _plan_cases(ctx, broken):
     sel = plans.seeded_slice(ctx, progs, n)
     # always include the shapes known to be delicate
     must = [p for p in progs if p.name in (
-        "shift1/diff1/self_add", "two_shifts", "two_diffs_frame", "nested_fused", "nested_fused3", "upper_first_shared_stage", "upper_first_shared_stage_rep", "stage_first_shared_stage", "nested_fused_deps", "nested_fused_deps3", "two_reparts_up", "two_reparts_mixed", "shuffle_b/tail2/id", "shuffle_b/tail2/count", "cumsum/id", "merge_inner", "concat", "shift1/self_add",
+        "shift1/diff1/self_add", "two_shifts", "two_diffs_frame", "nested_fused", "nested_fused3", "upper_first_shared_stage", "upper_first_shared_stage_rep", "stage_first_shared_stage", "nested_fused_deps", "nested_fused_deps3", "two_reparts_up", "two_reparts_mixed", "two_reparts_size", "shuffle_b/tail2/id", "shuffle_b/tail2/count", "cumsum/id", "merge_inner", "concat", "shift1/self_add",
         "head3/id", "repart5/shuffle_b/id", "shuffle_b_disk/id", "diff1/shift1/id")]
     return must + sel
 
